@@ -258,7 +258,8 @@ class Tracer:
 
 
 def run_job(cfg):
-    """a job is one run, or `repeat` runs in this same process (fresh or reused model), or a traced run"""
+    """a job is one run, or `repeat` runs in this same process, or a traced run.  Every run builds a FRESH Model instance;
+    `reuse_model` exists only for the out-of-domain observation recorded (never judged) by harness/c14.py"""
     if cfg.get("trace"):
         from harness import core
         with Tracer(core.REPO) as tr:
